@@ -165,6 +165,7 @@ fn make_body(enc: &str, cls: &str, target: Option<usize>, rng: &mut Rng) -> Resu
             }
             "unknown" => encode(enc, &ReqExtra { a: 7, s: s.clone(), zz: 1 }),
             "wrongtype" => encode(enc, &ReqWrong { a: "q".into(), s: s.clone() }),
+            "otherenc" => encode(if enc == "smile" { "json" } else { "smile" }, &req),
             other => return Err(format!("unknown class {other}")),
         };
         if let Some(t) = target {
